@@ -15,6 +15,8 @@ func init() {
 		NotDecided:  "the round-trip equality itself (a law about encoding/json, encoding/xml and compress/* on runtime values); unicode handling of the codecs.",
 		Assumptions: []string{"gzip.Reader latches a Reset error and returns it from the next Read (library contract): the dropped error of gzipReader.Reset is not a violation"},
 		Rules: []Rule{
+			{ID: "C16.i", Template: "T-TOKEN", Required: false, Run: ruleTokenAll,
+				Doc: "The reader of an entity is looked up by the media type of the Content-Type header: the piece cut from the header is trimmed before it is compared or used as a registry key (same obligations as C05.a). `application/json ; charset=UTF-8` cut at ';' without a trim misses the JSON reader."},
 			{ID: "C16.a", Template: "T-ORDER", Required: true, Run: ruleC16a,
 				Doc: "Number-preserving decoder."},
 			{ID: "C16.b", Template: "T-ORDER", Required: true, Run: ruleC16b,
